@@ -1,13 +1,17 @@
 // Driver for C25: query expressions evaluate like language expressions.
 // For generated where/extend expressions over the fields a, b, c, d of generated rows it
 // records what the REAL code answers on each path:
-//   val   compile/ast Expr.Eval on the row's values (query engine, value evaluation)
-//   raw   the same expression after CanEvalRaw: evaluation on the packed (stored) fields
-//   fn    function (a, b, c, d) { return <expr> } compiled by the language compiler and
-//         run by the interpreter (the language semantics)
+//
+//	val   compile/ast Expr.Eval on the row's values (query engine, value evaluation)
+//	raw   the same expression after CanEvalRaw: evaluation on the packed (stored) fields
+//	fn    function (a, b, c, d) { return <expr> } compiled by the language compiler and
+//	      run by the interpreter (the language semantics)
+//
 // and, on a real table in a heap database through dbms/query (parse + optimize + execute):
-//   where   t where <expr>            -> keys of the rows returned (or the exception)
-//   extend  t extend z = <expr>       -> z per row (or the exception)
+//
+//	where   t where <expr>            -> keys of the rows returned (or the exception)
+//	extend  t extend z = <expr>       -> z per row (or the exception)
+//
 // with the column a indexed, so that index ranges, raw filters and value filters all occur.
 // spec/trace/TraceQExpr.tla compares all of them with Values.tla Eval.
 //
@@ -266,14 +270,33 @@ func main() {
 	} {
 		pool = append(pool, K(av))
 	}
-	// type-directed picks so that most expressions are well typed (ill-typed ones are kept
-	// as a minority: the paths must still agree on the exception)
+	stats := map[string]int{}
+	nrows := 10
+	nsc := 1
+	if vh.Thorough() {
+		nsc = 4
+	}
+	debug := len(os.Args) > 3 && os.Args[2] == "-q"
+	for sc := 0; sc < nsc; sc++ {
+		if sc > 0 {
+			tr.Reset()
+		}
+		scenario(tr, rnd, pool, nrows, stats, debug)
+		if debug {
+			return
+		}
+	}
+	vh.Summary("expressions", stats["exprs"], "rows", nrows, "scenarios", nsc, "canraw", stats["canraw"],
+		"where.v", stats["where.v"], "where.x", stats["where.x"], "extend.v", stats["extend.v"], "extend.x", stats["extend.x"],
+		"unclassified", stats["unclassified"], "events", tr.N)
+}
+
+// scenario: one table of generated rows and a batch of generated expressions over it
+func scenario(tr *vh.Trace, rnd *rand.Rand, pool []konst, nrows int, stats map[string]int, debug bool) {
 	bools, nums, strs, dates := pool[0:2], pool[2:14], pool[14:19], pool[19:22]
 	pickOf := func(ks []konst) konst { return ks[rnd.Intn(len(ks))] }
 	pick := func() konst { return pool[rnd.Intn(len(pool))] }
-
 	// ------------------------------------------------------------ rows and the table
-	nrows := 10
 	rows := make([][]konst, nrows)
 	for i := range rows {
 		r := make([]konst, 4)
@@ -325,7 +348,7 @@ func main() {
 	}
 	tr.Emit(vh.E("Rows", "rows", rowVals))
 
-	if len(os.Args) > 3 && os.Args[2] == "-q" { // debugging aid: run given queries, print strategy and keys
+	if debug { // debugging aid: run given queries, print strategy and keys
 		for _, q := range os.Args[3:] {
 			func() {
 				defer func() {
@@ -347,7 +370,6 @@ func main() {
 		return
 	}
 	hdr := SimpleHeader(fields)
-	stats := map[string]int{}
 
 	// one test: expression e over leaves; leaf i is field col[i] (0..3) or a constant (col -1)
 	test := func(e *expr, col []int, consts []konst) {
@@ -492,7 +514,7 @@ func main() {
 	un := func(op string, x *expr) *expr { return &expr{op: op, a: []*expr{x}} }
 	nrand := 250
 	if vh.Thorough() {
-		nrand = 2500
+		nrand = 1500
 	}
 	// 1. field <cmp> constant, constant <cmp> field, field <cmp> field: every comparison
 	//    operator, every column, constants of every type
@@ -615,7 +637,4 @@ func main() {
 		}
 		test(e, col, ks)
 	}
-	vh.Summary("expressions", stats["exprs"], "rows", nrows, "canraw", stats["canraw"],
-		"where.v", stats["where.v"], "where.x", stats["where.x"], "extend.v", stats["extend.v"], "extend.x", stats["extend.x"],
-		"unclassified", stats["unclassified"], "events", tr.N)
 }
